@@ -796,7 +796,7 @@ Section Prog.
     destruct Hstack as [Hs1 HsP].
     destruct HR as (HC & H1 & ((HVg & HVf) & (HAn & HAc)) & Hne & HD).
     destruct HR' as (HC' & H1' & ((HVg' & HVf') & (HAn' & HAc')) & Hne' & HD').
-    destruct Hpost as (P1 & P2 & P3 & P5 & P6). cbn [out_rev input ncons garrs set_stk set_budget stk tl] in P1, P2, P3, P5.
+    destruct Hpost as (P1 & P2 & P5 & P6). cbn [out_rev input ncons garrs set_stk set_budget stk tl] in P1, P2, P5.
     assert (Hstk : stk (pop s2) = stk st) by (rewrite stk_pop; exact P5).
     assert (Htopeq : top (pop s2) = top st) by (unfold top; rewrite Hstk; reflexivity).
     (* what the callee may have changed *)
@@ -858,7 +858,7 @@ Section Prog.
       + unfold novals. rewrite Hstk, Htopeq. exact Hne.
       + rewrite Htopeq. exact HD.
     - unfold post. rewrite Htopeq, Hstk. cbn [pop out_rev input ncons garrs set_stk].
-      split; [exact P1|]. split; [exact P2|]. split; [exact P3|]. split; reflexivity.
+      split; [exact P1|]. split; [exact P2|]. split; reflexivity.
     - intros a Ha Hns0 Hnv. destruct (Z.eq_dec a 1) as [->|Hne1]; [rewrite Hf1; symmetry; exact H1|].
       rewrite Hm'; [|exact Ha | exact Hne1|].
       2:{ intros Hff Heq. specialize (Hf2 Hff). apply Hns0. right. left. unfold O. lia. }
@@ -886,7 +886,7 @@ Section Prog.
 
   Lemma call_from_stmt f : Stmt_ok f -> Call_ok f.
   Proof.
-    intros Hst pr fn ln L sp Hfr p pi vs st m link b inp Hp HR Hargs Hlen Hlink.
+    intros Hst pr fn ln L sp Hfr p pi vs st m link b inp Hp HR Hcon Hargs Hlen Hlink.
     destruct (Hprocs p pi Hp) as (He0 & pr' & fn' & ln' & L' & bc & n' & endp & Hfind & Hpf & Hs' & Hnum' & Hcs & Hca & Hend).
     assert (Hko : koff pi = foff pr') by (unfold koff, foff; rewrite Hpf; reflexivity).
     rewrite Hko in Hargs, Hlen.
@@ -913,7 +913,7 @@ Section Prog.
     destruct (callee_frame pr fn ln L sp pr' fn' ln' L' st m vs fr link m2 Hm2 Hfr Hs' Hnum' HR Hargs Hlen Hent) as [_ HR2].
     fold sp' st1 in HR2.
     (* body *)
-    pose proof (Hst pr' fn' ln' L' sp' Hfr' (body pr') (pl_n0 L') bc n' st1 Hcs m2 p1 p2 ap bp inp HR2 Hbody ltac:(lia) ltac:(lia) ltac:(lia)) as Hres.
+    pose proof (Hst pr' fn' ln' L' sp' Hfr' (body pr') (pl_n0 L') bc n' st1 Hcs m2 p1 p2 ap bp inp HR2 Hcon Hbody ltac:(lia) ltac:(lia) ltac:(lia)) as Hres.
     assert (Hfoc : forall mb, frame_onlyF pr' L' sp' m2 mb -> frame_onlyF pr' L' sp' mc mb).
     { intros mb Fb a Ha Hsc Hvw. rewrite (Fb a Ha Hsc Hvw). apply Hm2. exact Ha. }
     destruct (is_func pr') eqn:Eif; cbn [epi_of] in Hepi.
@@ -922,7 +922,7 @@ Section Prog.
       destruct (exec f ge (body pr') st1) as [[|v] s2|c s2|u]; cbn [bind rcase result_ok ret_ok] in *; [exact I | | | exact I].
       + destruct Hres as (outs & z & b1 & mb & -> & Hz & Rb & HRb & Pb & Fb). rewrite Hlab in Rb. cbn [ret_ok].
         pose proof HRb as (HCb & H1b & _).
-        destruct (run_epif (pl_exit L') (pl_size L') mb p2 endp (z mod W) b1 inp sp' Hepi HCb H1b ltac:(lia) ltac:(lia)
+        destruct (run_epif (pl_exit L') (pl_size L') mb p2 endp (z mod W) b1 (adv inp s2) sp' Hepi HCb H1b ltac:(lia) ltac:(lia)
                     ltac:(unfold sp'; lia) ltac:(apply HsP; unfold sp'; lia) Hend) as (a2 & b2 & mf & _ & Tepi & HCf & Hf1 & Hfr1 & Hfo).
         replace (sp' + pl_size L' + 1) with (sp + 1) in * by (unfold sp'; lia).
         replace (sp' + pl_size L') with sp in * by (unfold sp'; lia).
@@ -933,16 +933,16 @@ Section Prog.
         exists outs, a2, b2, mf. split; [|split; [exact HRc|split; [exact Pc|split; [exact Fc|]]]].
         * eapply taus_runs; [exact Tpro|]. eapply runs_taus; [exact Rb | exact Tepi].
         * intros _. exists z. split; [reflexivity|]. split; [exact Hz | exact Hfr1].
-      + destruct Hres as (outs & Ex & (Q1 & Q2 & Q3)). exists outs. split; [eapply taus_exits; [exact Tpro | exact Ex]|].
-        exact (conj Q1 (conj Q2 Q3)).
+      + destruct Hres as (outs & Ex & (Q1 & Q2)). exists outs. split; [eapply taus_exits; [exact Tpro | exact Ex]|].
+        exact (conj Q1 Q2).
     - (* a procedure *)
-      assert (Hback : forall outs s2 mb a1 b1, runs inp (mk p1 ap bp 0 m2) (map wr_ev outs) inp (mk p2 a1 b1 0 mb) ->
+      assert (Hback : forall outs s2 mb a1 b1, runs inp (mk p1 ap bp 0 m2) outs (adv inp s2) (mk p2 a1 b1 0 mb) ->
                 RelF pr' L' sp' s2 mb -> post st1 s2 outs -> frame_onlyF pr' L' sp' m2 mb ->
-                exists outs0 a' b' m', runs inp (mk (lab (pf_entry pi)) link b 0 m) (map wr_ev outs0) inp (mk link a' b' 0 m') /\
+                exists outs0 a' b' m', runs inp (mk (lab (pf_entry pi)) link b 0 m) outs0 (adv inp (pop s2)) (mk link a' b' 0 m') /\
                   RelF pr L sp (pop s2) m' /\ post st (pop s2) outs0 /\ frame_onlyF pr L sp m m' /\
                   (false = true -> exists z, Vundef = Vint z /\ in_int z = true /\ rd m' (sp + 1) = z mod W)).
       { intros outs s2 mb a1 b1 Rb HRb Pb Fb. pose proof HRb as (HCb & H1b & _).
-        destruct (run_epi (pl_exit L') (pl_size L') mb p2 endp a1 b1 inp sp' Hepi HCb H1b ltac:(lia) ltac:(lia) ltac:(unfold sp'; lia) Hend)
+        destruct (run_epi (pl_exit L') (pl_size L') mb p2 endp a1 b1 (adv inp s2) sp' Hepi HCb H1b ltac:(lia) ltac:(lia) ltac:(unfold sp'; lia) Hend)
           as (a2 & b2 & mf & _ & Tepi & HCf & Hf1 & Hfo).
         replace (sp' + pl_size L') with sp in * by (unfold sp'; lia).
         destruct (caller_back pr fn ln L sp pr' fn' ln' L' st m vs fr link s2 mb mf outs Hfr Hfr' HR Hlv Hlen HRb Pb (Hfoc mb Fb) HCf Hf1)
@@ -955,8 +955,8 @@ Section Prog.
       + destruct Hres as (outs & a1 & b1 & mb & Rb & HRb & Pb & Fb). exact (Hback outs s2 mb a1 b1 Rb HRb Pb Fb).
       + destruct Hres as (outs & z & b1 & mb & _ & _ & Rb & HRb & Pb & Fb). rewrite Hlab in Rb.
         exact (Hback outs s2 mb (z mod W) b1 Rb HRb Pb Fb).
-      + destruct Hres as (outs & Ex & (Q1 & Q2 & Q3)). exists outs. split; [eapply taus_exits; [exact Tpro | exact Ex]|].
-        exact (conj Q1 (conj Q2 Q3)).
+      + destruct Hres as (outs & Ex & (Q1 & Q2)). exists outs. split; [eapply taus_exits; [exact Tpro | exact Ex]|].
+        exact (conj Q1 Q2).
   Qed.
 
   Theorem call_ok : forall f, Call_ok f.
@@ -974,16 +974,16 @@ Section Prog.
      frame, or the word of a variable in scope *)
   Corollary call_discipline : forall f pr fn ln L sp, frame_ok pr fn ln L sp ->
     forall p pi vs st v st' m link b inp, pinfo p = Some pi ->
-      RelF pr L sp st m -> args_stored garr_of abase sp vs (koff pi) m -> Z.of_nat (List.length vs) + koff pi <= pl_og L -> 0 <= link < W ->
+      RelF pr L sp st m -> console inp = input st -> args_stored garr_of abase sp vs (koff pi) m -> Z.of_nat (List.length vs) + koff pi <= pl_og L -> 0 <= link < W ->
       invoke (exec f ge) ge (pf_isfunc pi) p vs st = Ret v st' ->
-      exists evs a' b' m', runs inp (mk (lab (pf_entry pi)) link b 0 m) evs inp (mk link a' b' 0 m') /\
+      exists evs a' b' m', runs inp (mk (lab (pf_entry pi)) link b 0 m) evs (adv inp st') (mk link a' b' 0 m') /\
         rd m' 1 = rd m 1 /\ (forall x, 0 <= x -> P x -> rd m' x = rd m x) /\
         (forall x, 0 <= x -> ~ scratchF pr L sp x -> ~ var_wordF pr L sp x -> rd m' x = rd m x).
   Proof.
-    intros f pr fn ln L sp Hfr p pi vs st v st' m link b inp Hp HR Hargs Hlen Hlink Hinv.
-    pose proof (call_ok f pr fn ln L sp Hfr p pi vs st m link b inp Hp HR Hargs Hlen Hlink) as H.
+    intros f pr fn ln L sp Hfr p pi vs st v st' m link b inp Hp HR Hcon Hargs Hlen Hlink Hinv.
+    pose proof (call_ok f pr fn ln L sp Hfr p pi vs st m link b inp Hp HR Hcon Hargs Hlen Hlink) as H.
     rewrite Hinv in H. destruct H as (o & a' & b' & m' & R & HR' & _ & F & _).
-    exists (map wr_ev o), a', b', m'. split; [exact R|].
+    exists o, a', b', m'. split; [exact R|].
     destruct HR as (C0 & S0 & _). destruct HR' as (C1 & S1 & _).
     split; [congruence|]. split.
     - intros x Hx0 HP. rewrite (C1 x Hx0 HP), (C0 x Hx0 HP). reflexivity.
